@@ -22,7 +22,7 @@ ASSUMPTIONS = ["orphan payloads under a DAYS argument and the exit status are no
                "unpadded-but-strptime-parseable dates, no CRLF)"]
 
 DELTAS = ["-1", "0", "+1", "rand_old", "rand_new", "far_past", "future", "malformed", "missing",
-          "dup_old_first", "dup_new_first", "dup_bad_first_old", "dup_bad_first_new"]
+          "dup_old_first", "dup_new_first", "dup_bad_first_old", "dup_bad_first_new", "year9999", "year0001"]
 MALFORMED = ["garbage", "", "2020-13-45T00:00:00", "2021-02-30T10:00:00", "2020-01-01T00:00:00Z",
              "2020-01-01 00:00:00", "20200101T000000", "2020-01-01T25:00:00", "0000-00-00T00:00:00",
              "2020-01-01T00:00"]
@@ -44,6 +44,9 @@ def strategy_(draw, tier):
         days = draw(st.sampled_from([3650000, 10 ** 9]))
     now = draw(st.integers(86400 * 400, 3 * 10 ** 9))  # seconds since 2000-01-01
     via = draw(st.sampled_from(["TRASH_DATE", "clock"]))
+    # a real clock has a sub-second part: "strictly earlier than now - DAYS days" then also
+    # holds for an entry trashed exactly DAYS days (to the second) ago
+    usec = draw(st.sampled_from([0, 0, 1, 500000, 999999])) if via == "clock" else 0
     d = days if days is not None and days <= 100000 else (0 if days is None else 36500)
     thr = now - d * 86400
     ents = []
@@ -65,7 +68,14 @@ def strategy_(draw, tier):
         if secs is not None:
             secs = max(secs, -31556908800 + 86400 * 366)  # keep year >= 1001
             date = gen.date_str(secs)
-            expect_old = secs < thr
+            expect_old = secs < thr or (secs == thr and usec > 0)
+        elif dc == "year9999":
+            # the far end of what a datetime can hold (date + DAYS overflows): in the future => kept
+            date = draw(st.sampled_from(["9999-12-31T23:59:59", "9999-12-31T12:00:00", "9999-06-01T00:00:00"]))
+            expect_old = False
+        elif dc == "year0001":
+            date = draw(st.sampled_from(["0001-01-01T00:00:00", "0001-01-02T00:00:00"]))
+            expect_old = True
         elif dc == "malformed":
             date = draw(st.sampled_from(MALFORMED))
             expect_old = False
@@ -85,7 +95,7 @@ def strategy_(draw, tier):
         ents.append(dict(tdir=tdir, base=base, orig=orig, date=date, dc=dc, kind=kind,
                          payload=payload, old=expect_old))
     orphans = [list(draw(st.sampled_from(tds))) for _ in range(draw(st.integers(0, 2)))]
-    return {"layout": tw.layout, "uid": tw.uid, "days": days, "now": now, "via": via,
+    return {"layout": tw.layout, "uid": tw.uid, "days": days, "now": now, "via": via, "usec": usec,
             "ents": ents, "orphans": orphans, "verbose": draw(st.booleans())}
 
 
@@ -120,7 +130,8 @@ def run_case(case):
     out = Outcome()
     tw = build(case)
     now = gen.date_str(case["now"])
-    spec = tw.spec(cwd="/", now=now if case["via"] == "clock" else "2001-01-01T00:00:00")
+    nowclock = now + (".%06d" % case["usec"] if case.get("usec") else "")
+    spec = tw.spec(cwd="/", now=nowclock if case["via"] == "clock" else "2001-01-01T00:00:00")
     env = {"TRASH_DATE": now} if case["via"] == "TRASH_DATE" else {}
     sandbox.build_world(spec)
     before = sandbox.snapshot()
@@ -164,7 +175,7 @@ def run_case(case):
             break
     near = sorted(set(e["dc"] for e in case["ents"]))
     if days is not None and any(x in ("-1", "0", "+1") for x in near):
-        out.key = [near, dcl, case["via"], len(set(e["tdir"] for e in case["ents"]))]
+        out.key = [near, dcl, case["via"], len(set(e["tdir"] for e in case["ents"])), bool(case.get("usec"))]
         out.sample = {"days": days, "now": now, "via": case["via"],
                       "entries": [[e["dc"], e["date"], e["tdir"]] for e in case["ents"]],
                       "exit": res.code}
